@@ -319,7 +319,7 @@ struct LcSim : Harness {
         phase("c2mir_compile", "module " + std::to_string(mi));
         int ok = c2mir_compile(ctx, &opts, c_getc, &cs, "sim.c", nullptr); fclose(msg);
         if (!ok) { out.fail("harness_c_emitter", "c2mir_compile", "c2mir rejected the generated C for module " + std::to_string(mi)); return; }
-        mods[mi].via = "c2m"; C->count("module_via_c2mir");
+        mods[mi].via = "c2m"; C->count("module_via_c2mir"); if (prog_json->at("mods")[mi].geti("cmacros")) C->count("c2mir_with_macros_and_conditionals");
       } else {
         if (uses(prog_json->at("mods")[mi], "lt") || uses(prog_json->at("mods")[mi], "ld")) return;
         { bool gv = false; for (auto &f : prog_json->at("mods")[mi].at("funcs").a) if (f.geti("gv")) gv = true; if (gv) return; }  // nor functions with hard-register global variables (reader fails: outside the claimed properties)  // binary MIR cannot carry lref items (known limitation outside the claimed properties)
@@ -628,7 +628,7 @@ struct LcSim : Harness {
     if (big) { go.sw = true; go.sw_weight = 30; go.recursion = false; }
     go.blocked = r.coin();
     prog::Generator g(r, go); Json prog = g.program(); prog::protect_fuel(prog);
-    for (auto &mo : prog["mods"].a) { mo.set("fwd_first", (int) r.coin()); mo.set("rev", (int) r.coin()); }
+    for (auto &mo : prog["mods"].a) { mo.set("fwd_first", (int) r.coin()); mo.set("rev", (int) r.coin()); mo.set("cmacros", (int) r.coin()); }
     Json ops = Json::array(); size_t nm = prog.at("mods").size();
     auto push = [&](std::initializer_list<Json> l) { Json o = Json::array(); for (auto &x : l) o.push(x); ops.push(o); };
     std::vector<std::string> names; for (auto &mo : prog.at("mods").a) for (auto &f : mo.at("funcs").a) names.push_back(f.gets("name"));
